@@ -218,17 +218,26 @@ for e in ENGINES:
 
 # ---- additions made while the checks were strengthened against seeded changes (DESIGN.md 10.6)
 _ADD = {
- 'C02': 'Lists holding binary packets are also built from packet objects that were already encoded for other channels (6 encode histories).',
- 'C03': 'Variants include backlogs of 17..40 messages, two overlapping opens with a slow connect handler, and an upgrade request whose socket is gone before the WebSocket accept.',
- 'C05': 'Disconnect handlers also touch other sessions (kick a partner, send to a stale id); a disconnect() call that raises, or returns without having ended every session, is a violation. Line-granular preemption (sys.settrace) inside Socket.close for racing closers.',
- 'C06': 'Histories also start after / consist of an upgrade attempt that died before the WebSocket accept; on a polling-only server every shape of the upgrade request (transport value x 4 spellings of the Upgrade value x 3 Connection values x with/without sid) is followed by the full handshake.',
- 'C07': 'Also: upgrades straddling the first PING, peers that talk but never PONG, and peers stalled for ever between probe and UPGRADE (send after the deadline must drop them); a deep subset with free switching, two preemptions and line-granular scheduling inside _send_ping.',
- 'C08': 'Early-reconnect scenarios: connect() again 3 s after the disconnect event, before the old connection\'s timers have run out; the second connection must last until its own read timeout.',
- 'C10': 'The same conversations also run over a virtual network with a one-way delay (1/16..7/16 s; delay line in the combined world), with heartbeat settings that put PINGs inside the handshake and the upgrade; bursts followed by a hang-up.',
- 'C11': 'A schedule search over two / three simultaneous opens with per-client handler duration and verdict: accepted ids stay usable, rejected ones unaddressable.',
- 'C13': 'Request pairs on one server (forwarded headers or an allowed / case-variant / foreign Origin first) are judged on the second request alone, against the reference and differentially against a fresh server.',
- 'C15': 'The alphabet includes a full batch of 16 sends; a second search root is the state after a completed upgrade; blocked-call signatures carry the queue-reader state so that known findings name exactly the (server, reader) pairs that block on the pinned tree.',
- 'C16': 'A schedule search (free switching, <= 2 preemptions, scheduling points between creating, entering and leaving the session() context) over concurrent session() / save_session() / get_session() on two / three sessions.',
+ 'C01': 'The JSON look-alikes and values are decoded / encoded again with Packet.json set to the standard library module and to an application class (the json= option).',
+ 'C02': 'Lists holding binary packets are also built from packet objects already encoded for other channels (6 encode histories); bodies around the limit for 9 other configured values of Payload.max_decode_packets; payloads built / decoded right after an encode() or decode() that failed.',
+ 'C03': 'Variants include backlogs of 17..40 messages (also with a heartbeat PING in the middle, and while the session is closing), two overlapping opens with a slow connect handler, an upgrade request whose socket is gone before the WebSocket accept, and a server write that fails in the middle of a batch; a binary message written to a WebSocket as a base64 text frame is a violation.',
+ 'C04': 'Also: message handlers that raise (ordinary exception, TypeError) or disconnect their own session in the middle of a body, bodies arriving while the session is in the middle of its own close, empty binary frames.',
+ 'C05': 'Disconnect handlers also touch other sessions (kick a partner, send to a stale id), raise from a legacy one-argument handler, or follow a first open rejected by a TypeError; a write that fails is an end cause of its own (reason of the transport class); earlier server generations (a session that came and went, disconnect() on an empty table) precede the observed session; a disconnect() call that raises, or returns without having ended every session, is a violation. Line-granular preemption (sys.settrace) inside Socket.close for racing closers.',
+ 'C06': 'Histories also start after / consist of an upgrade attempt that died before the WebSocket accept or failed right after its probe; two upgrade sockets opened on one session before either handshake finished (every interleaving); on a polling-only server every shape of the upgrade request is followed by the full handshake; a directly opened WebSocket is raced against a poll issued on receipt of its OPEN packet with line-granular scheduling (2 deviations).',
+ 'C07': 'Also: upgrades straddling the first PING, peers that talk but never PONG, peers stalled for ever between probe and UPGRADE, WebSocket opens whose accept failed, crowds of 3 / 5 silent sessions, sessions that are a later generation of the server (after a closed session, a rejected open, a disconnect() of everybody); a deep subset with free switching, two preemptions and line-granular scheduling inside _send_ping.',
+ 'C08': 'Early-reconnect scenarios (connect() again 3 s after the disconnect event; the second connection must last until its own read timeout and take nothing over from the first OPEN packet); write-fault scenarios (the k-th write of a batch fails once); a thread blocked on a real lock is reported as a deadlock.',
+ 'C09': 'Also: writes that block inside the socket while frames keep arriving; the k-th write of a flush failing once (the wire must be a prefix of what was sent); sends made from inside the connect handler; connect() called again on a connected client.',
+ 'C10': 'The same conversations also run over a virtual network with a one-way delay (1/16..7/16 s; delay line in the combined world) with heartbeat settings that put PINGs inside the handshake and the upgrade; one message of each of 13 payload shapes in each direction; bursts followed by a hang-up; a server write failing in the middle of a burst; greetings sent from the connect handler; differently configured servers constructed earlier in the process.',
+ 'C11': 'A schedule search over two / three simultaneous opens with per-client handler duration and verdict; after each accepted open an open over the other transport; a cookie attribute callable that depends on the request and one that returns False; connect handlers raising TypeError; at the moment a 401 is handed to the gateway the rejected id must already be gone (observer inside the gateway callback).',
+ 'C12': 'Also: allow_upgrades=False; session kinds "closing" (disconnect handler never returns), "suffixed" / "prefix" (a live sid plus / minus one character); header kind Upgrade: h2c at the quick tier; POSTs to a closing session must not produce events.',
+ 'C13': 'Request pairs on one server (forwarded headers or an allowed / case-variant / foreign Origin first) judged on the second request alone and differentially against a fresh server; a state with two sessions opened and used through two hosts in which every (session, host, origin, kind) request is judged on its own; a pending poll overlapped by a POST of the same session with another allowed Origin.',
+ 'C14': 'Also: POSTs around the limit while the session is closing, in both orders; oversize frames whose close frame cannot be written (the session must be dead a quarter second later); form bodies; limits of 1..5 bytes.',
+ 'C15': 'The alphabet includes a full batch of 16 sends; a second search root is the state after a completed upgrade; compressed response paths (8-byte threshold); an overlap pass (every probe while the disconnect handler of an ending session is asleep) and a farewell pass (a disconnect handler that yields and then sends); blocked-call signatures carry the queue-reader state so that known findings name exactly the (server, reader) pairs that block on the pinned tree.',
+ 'C16': 'A schedule search (free switching, <= 2 preemptions, scheduling points between creating, entering and leaving the session() context) over concurrent session() / save_session() / get_session(); WebSocket opens whose accept fails; histories after which the oldest session keeps a healthy client while the others fall silent; sessions coming and going in the middle of a monitor sweep.',
+ 'C17': 'Also: a successor test at every power-of-two boundary of the counter; sibling instances (A issues an id, another instance issues 2^24-1, the next id of A must differ); handshakes presenting the cookie of an ended session or a forged one; accepted and rejected handshakes interleaved under a constant source.',
+ 'C18': 'The alphabet includes an upgrade attempt dropped before the accept and a server write that fails; sessions that either server has dropped for a timeout-class reason leave the comparison; histories in which two suspended handlers wake at the same instant are pruned from the sleepy pass.',
+ 'C19': 'Each plain poll is followed by a POST and an OPTIONS with the same Accept-Encoding on the same server (their acknowledgements pass the same compression step); JSONP polls during an upgrade handshake (lone NOOP).',
+ 'C20': 'All four slash spellings of each endpoint on every path of <= 2 segments; request sequences on one application object compared with a fresh application (history independence); repeated lifespan cycles.',
 }
 for _p, _t in _ADD.items():
     CHECKS[_p]['text'] = CHECKS[_p]['text'].rstrip() + ' ' + _t
